@@ -1,5 +1,5 @@
 """C20 — table names resolve by a fixed precedence."""
-import os, random, shutil, tempfile
+import os, random, re, shutil, tempfile
 from .. import common
 
 THEOREMS = [
@@ -668,4 +668,38 @@ def _run(v, rng, exe, R, tablesdir, tier):
                      "special = search-path spellings, TABLESDIR, data path, list-base rule, backslash, nested include, malformed lists, overflow")
     v.assumptions += ["default resolver (no lou_registerTableResolver)", "no symbolic links in the scratch tree",
                       "candidate names below 4096 bytes (Fits) for the precedence clauses; LOUIS_TABLEPATH below 2046 bytes"]
+    # ---- a name found nowhere makes compilation fail with an error THROUGH EVERY ENTRY POINT (table lists, display-only
+    #      lists of the conversions, a separate display list of a translation), and does not depend on / change what was
+    #      or is loaded: the same good call gives the same result before and after
+    good = "ep-good.ctb"
+    ep_setup = ["TBL %s %s" % (good, hx("space \\s 0\nsign a 1\nsign b 12\n"))]
+    w61 = common.wide([0x61, 0x62])
+    miss = ["ep-missing.dis", "nodir/ep-missing.ctb", "/nonexistent/ep-missing.utb", good + ",ep-missing.cti"]
+    ep_ops = ["FWD %s 0 8 - 12 %s - -" % (good, w61)]
+    for mname in miss:
+        ep_ops += ["GET " + mname, "CHK " + mname, "C2D %s 0 %s" % (mname, w61), "D2C %s 0 %s" % (mname, common.wide([0x8001])),
+                   "FWD %s 0 8 - 268 %s - - %s" % (good, w61, mname), "BWD %s 0 8 - 268 %s - - %s" % (good, w61, mname),
+                   "FWD %s 0 8 - 12 %s - -" % (mname, w61),
+                   "FWD %s 0 8 - 12 %s - -" % (good, w61)]
+    cep = common.Case("c20-entrypoints", ep_setup, ep_ops, {})
+    common.run_cases(exe, [cep], batch=1, timeout=120)
+    if cep.fault or len(cep.out) != len(ep_ops):
+        v.violation("C20:entry-points:fault", "fault while resolving names that exist nowhere: %s" % (cep.fault or {}).get("kind"), {"script": ep_setup + ep_ops})
+    else:
+        ref = cep.out[0].split(" | ")[0]
+        for op, o in zip(ep_ops[1:], cep.out[1:]):
+            v.cov["evaluations"] += 1
+            t0 = op.split(" ")
+            o0 = o.split(" | ")[0]
+            em = re.search(r" e=(\d+)", o)
+            nerr = int(em.group(1)) if em else 0
+            if t0[1] == good and len(t0) < 10:
+                if o0 != ref:
+                    v.violation("C20:entry-points:state", "after a call with a name found nowhere the same good call answers differently: %s / %s" % (ref[:80], o0[:80]),
+                                {"script": ep_setup + ep_ops[: ep_ops.index(op) + 1], "results": [ref, o0]})
+                continue
+            okfail = (o0.startswith("G 0") or o0.startswith("C 0") or o0.startswith("V 0") or o0.startswith("R 0"))
+            if not okfail or nerr < 1:
+                v.violation("C20:not-found-no-error:%s" % t0[0], "%s with a name found nowhere (%s) gave '%s' (errors logged: %d): it must fail with an error" % (
+                    t0[0], t0[-1] if len(t0) >= 10 else t0[1], o0[:60], nerr), {"script": ep_setup + [op], "result": o[:300]})
     return v.finish()
